@@ -13,8 +13,9 @@ subset (anything else: fail closed, exit status 2 with the source location):
   return <bytes-expr>[, anything]                                 the block (make_definitions also returns the data: ignored)
   n-expr:     int literals, len(data), len(<bytes local>), T.tell(), width (= 8 * itemsize), + - * // << | (with literals)
   bytes-expr: T.so_far(), bytes(..), struct.pack('<I', <n>), a + b, data.values.tobytes() (the codes, little endian),
-              encode_plain(<notnull mask>, <BOOLEAN element>) (the writer's boolean packing: Impl/WLevels.wr_bools)
-Output: gen_make_definitions (no_nulls : bool) (version n : N) (mask : list N) : bytes
+              encode_plain(<notnull mask>, <BOOLEAN element>) = the parameter `packed` (PLAIN booleans of the not-null mask as
+              writer.convert packs them: its own relation 'decodes to the input' is proved / checked separately)
+Output: gen_make_definitions (no_nulls : bool) (version n : N) (packed : bytes) : bytes
         gen_encode_dict (k : nat) (codes : list N) : bytes
 """
 import ast
@@ -81,7 +82,7 @@ class Fn:
         if isinstance(e, ast.Call) and isinstance(e.func, ast.Name) and e.func.id == "encode_plain" and len(e.args) == 2 \
                 and isinstance(e.args[0], ast.Name) and e.args[0].id in st["mask"] and isinstance(e.args[1], ast.Name) \
                 and e.args[1].id in st["boolse"]:
-            return "(wr_bools mask)"
+            return "packed"
         if isinstance(e, ast.BinOp) and isinstance(e.op, ast.Add):
             return "(%s ++ %s)" % (self.b(e.left, st), self.b(e.right, st))
         fail(e, "unsupported bytes expression %s" % src[:60])
@@ -172,7 +173,7 @@ def translate(src):
            "From Coq Require Import NArith List Bool.",
            "From Pq Require Import Base.Bytes Base.ListX Codec.Varint Impl.WLevels.",
            "Import ListNotations.\nOpen Scope N_scope.\n",
-           "Definition gen_make_definitions (no_nulls : bool) (version n : N) (mask : list N) : bytes :=\n%s.\n" % t1,
+           "Definition gen_make_definitions (no_nulls : bool) (version n : N) (packed : bytes) : bytes :=\n%s.\n" % t1,
            "Definition gen_encode_dict (k : nat) (codes : list N) : bytes :=\n%s.\n" % t2]
     return "\n".join(out)
 
